@@ -23,7 +23,10 @@ MANIFEST = dict(
          "is compared bit-for-bit with the independent oracle (objects, order, properties, dtype, length, values).  (Ka) the real "
          "lead-in parser on symbolic unbounded position / offsets / file size / toc bits / version equals the format's "
          "definition; (Kb) the real chunk-count and partial-final-chunk computation on symbolic value counts and data sizes "
-         "partitions the raw data exactly.",
+         "partitions the raw data exactly; (Kc) the real metadata walk over an index-form stream with symbolic unbounded value "
+         "counts, offsets and an integer property gives lengths, positions, chunk counts and object lists equal to the format's "
+         "arithmetic; (R) seeded random well-formed shapes (inheritance encodings, permuted orders, padding, mixed byte orders, "
+         "truncation) read eagerly and lazily, raw timestamps on/off.",
     note="Trusted: z3, sx engine, struct model, encoder/oracle. In (I) the solver enumerates structure (feasibility pruning, no "
          "generalisation); planted values include extremes and NaN payloads but are not all values. NumPy decoding given the "
          "right dtype is executed, not encoded.",
@@ -48,7 +51,7 @@ META = dict(
     stubs=['SymStream + struct model for the lead-in kernel', 'int()/isinstance/range on symbolic ints'],
     assumptions=['file bytes come from the independent encoder vf/tdmsmodel.py'],
     buckets=dict(all=['file-read', 'interleaved', 'big-endian', 'multi-chunk', 'properties', 'leadin-complete', 'leadin-incomplete',
-                      'leadin-eof', 'chunks-exact', 'chunks-partial', 'index-stream-kernel']),
+                      'leadin-eof', 'chunks-exact', 'chunks-partial', 'index-stream-kernel', 'random-shape']),
     replays_per_signature=3,
     validate_samples=10,
 )
@@ -68,6 +71,9 @@ def tasks(tier, seed):
                     ts.append(dict(kind='file', ta=ta, inter=inter, big=big, struct=struct_, S=S, tier=tier))
     ts.append(dict(kind='leadin', big=False))
     ts.append(dict(kind='leadin', big=True))
+    # seeded random well-formed shapes (inheritance encodings, permuted orders, padding, mixed byte orders, truncation ...)
+    for blk in range(4 if tier == 'quick' else 40):
+        ts.append(dict(kind='random', seed=seed, block=blk, n=12 if tier == 'quick' else 25))
     # index-stream kernel: the first segment's encoding and channel 0's type are fixed per task, the rest is explored
     for k0 in range(2):
         for k1 in range(3):
@@ -441,8 +447,55 @@ def _run_kc(task):
     return st
 
 
+# ----------------------------------------------------------------------------- (R) seeded random shapes, whole-file comparison
+def _random_shapes(task):
+    from .. import shapes
+    fam = shapes.random_family(task['seed'] * 1000 + task['block'], task['n'])
+    return fam
+
+
+def _check_random_shape(sh, fail):
+    from nptdms import TdmsFile
+    from . import c03
+    enc = s1.build(sh)
+    for raw_ts in (False, True):
+        expv = {p: c03._trunc_expected(None, enc, p, raw_ts) for p in enc.channels}
+        for opener in (TdmsFile.read, TdmsFile.open):
+            try:
+                tf = opener(io.BytesIO(enc.data), raw_timestamps=raw_ts)
+            except Exception as e:
+                fail('exception', exc=type(e).__name__, msg=str(e)[:100], mode=opener.__name__)
+                return
+            try:
+                try:
+                    mism = s1.compare_file(tf, enc, raw_ts, expected_values=expv)
+                except Exception as e:
+                    fail('exception', exc=type(e).__name__, msg=str(e)[:100], mode=opener.__name__)
+                    return
+                if mism:
+                    fail('mismatch:' + mism[0]['what'], detail=mism[0], mode=opener.__name__, raw_ts=raw_ts)
+            finally:
+                tf.close()
+
+
+def _run_random(task):
+    fam = _random_shapes(task)
+
+    def fn(ctx):
+        i = ctx.choice('shape', len(fam))
+        ctx.info['shape'] = str(fam[i])[:300]
+        ctx.obligations += 1
+        _check_random_shape(fam[i], lambda what, **kw: ctx.fail(what, **kw))
+        ctx.discharged += 1
+        ctx.note('random-shape')
+
+    st = explore(fn, max_paths=5000, time_budget=900)
+    st.pop('wall_s', None)
+    return st
+
+
 def run_task(task):
-    return dict(file=_run_file, leadin=_run_leadin, chunks=_run_chunks, kc=_run_kc)[task['kind']](task)
+    return dict(file=_run_file, leadin=_run_leadin, chunks=_run_chunks, kc=_run_kc, random=_run_random)[task['kind']](task)
 
 
 def signature(c):
@@ -452,6 +505,8 @@ def signature(c):
         what = 'exception:%s' % c.get('exc')
     if t['kind'] == 'file':
         return 'C01/file/%s/%s/%s' % (what, tm.TYPES[t['ta']][0], 'interleaved' if t['inter'] else 'contiguous')
+    if t['kind'] == 'random':
+        return 'C01/random/%s/%s' % (what, c.get('mode', ''))
     return 'C01/%s/%s' % (t['kind'], what)
 
 
@@ -473,6 +528,21 @@ def replay(art):
             mism = s1.compare_file(tf, enc, raw_ts)
             if mism:
                 return dict(sig=signature(dict(task=task, what='mismatch:' + mism[0]['what'])), detail=mism[0], raw_ts=raw_ts)
+        return None
+    if task['kind'] == 'random':
+        fam = _random_shapes(task)
+        out = []
+
+        class Stop(Exception):
+            pass
+
+        def fail(what, **kw):
+            out.append(dict(sig=signature(dict(task=task, what=what, exc=kw.get('exc'), mode=kw.get('mode', ''))), **kw))
+            raise Stop()
+        try:
+            _check_random_shape(fam[inp.get('shape', 0)], fail)
+        except Stop:
+            return out[0]
         return None
     if task['kind'] == 'leadin':
         import struct
